@@ -42,14 +42,15 @@ RMin1(x) == IF RGeqOne(x) THEN ROne ELSE x
 (* ------------------------------------------------------------------------ *)
 (* pedigree accessors                                                        *)
 Bag(x, K) == SubBag(x, DOMAIN x, K)
-ParBag(ped, st, j) == IF j = 0 THEN <<>> ELSE Bag(st[j], ped.K)
+BagT(x) == tab.bag[x]                       \* tabulated Bag (see tab below)
+ParBag(ped, st, j) == IF j = 0 THEN <<>> ELSE BagT(st[j])
 (* trio parameters of individual i for parental bags gp, gq (<<>> = unknown)  *)
 TPb(ped, i, gp, gq) ==
   [K |-> ped.K, Gp |-> gp, Gq |-> gq,
    tp |-> ped.tau[i][1], tq |-> ped.tau[i][2], lp |-> ped.lam[i][1], lq |-> ped.lam[i][2],
    ep |-> ped.err[i][1], eq |-> ped.err[i][2], f |-> ped.f]
 TP(ped, st, i) == TPb(ped, i, ParBag(ped, st, ped.par[i][1]), ParBag(ped, st, ped.par[i][2]))
-PermsOf(ped, st, i) == Perms(Bag(st[i], ped.K))
+PermsOf(ped, st, i) == tab.perms[BagT(st[i])]
 CntIn(x, a) == Cardinality({j \in DOMAIN x : x[j] = a})
 
 (* TLC does not memoise operators; the trio probabilities of every individual *)
@@ -64,7 +65,7 @@ TrioTabFor(ped) ==
   TLCEval([i \in 1..ped.n |->
      TLCEval([key \in TrioKeys(ped, i) |-> TLCEval(Trio(key[1], TPb(ped, i, key[2], key[3])))])])
 TrioOf(ped, st, i) ==
-  tab.trio[i][<<Bag(st[i], ped.K), ParBag(ped, st, ped.par[i][1]), ParBag(ped, st, ped.par[i][2])>>]
+  tab.trio[i][<<BagT(st[i]), ParBag(ped, st, ped.par[i][1]), ParBag(ped, st, ped.par[i][2])>>]
 
 (* children of i (each child once, also when it was produced by selfing)     *)
 Children(ped, i) == {c \in 1..ped.n : ped.par[c][1] = i \/ ped.par[c][2] = i}
@@ -92,13 +93,19 @@ IntPow(b, c) == IF c = 0 THEN 1 ELSE b * IntPow(b, c - 1)
 RECURSIVE LWFrom(_, _)
 LWFrom(fs, m) == IF m = 0 THEN 1 ELSE IntPow(fs[m][1], fs[m][2]) * LWFrom(fs, m - 1)
 LW(ped, rs, x) == LET fs == LWFactors(ped, rs, x) IN LWFrom(fs, Len(fs))
+LWOf(ped, i, x) == tab.lw[i][BagT(x)]       \* tabulated L_i for the individual's own reads
+AllVecs(ped) == UNION {VecsOf(ped.K, ped.ploidy[i]) : i \in 1..ped.n}
+BagTabFor(ped) == TLCEval([x \in AllVecs(ped) |-> Bag(x, ped.K)])
+PermsTabFor(ped) == TLCEval([g \in {Bag(x, ped.K) : x \in AllVecs(ped)} |-> Perms(g)])
+LWTabFor(ped) ==
+  TLCEval([i \in 1..ped.n |-> TLCEval([g \in BagsOf(ped.K, ped.ploidy[i]) |-> LW(ped, ped.reads[i], g)])])
 
 (* ------------------------------------------------------------------------ *)
 (* the declarative joint, as ratios between two states                       *)
 Positive(ped, st) == \A i \in 1..ped.n : RPos(TrioOf(ped, st, i))
 (* factor of individual j in pi(t) / pi(st)   (pi(st) > 0)                    *)
 FacRatio(ped, st, t, j) ==
-  RMul(RMul(RFrac(LW(ped, ped.reads[j], t[j]), LW(ped, ped.reads[j], st[j])),
+  RMul(RMul(RFrac(LWOf(ped, j, t[j]), LWOf(ped, j, st[j])),
             RDiv(TrioOf(ped, t, j), TrioOf(ped, st, j))),
        RFrac(PermsOf(ped, st, j), PermsOf(ped, t, j)))
 RECURSIVE PiRatioFrom(_, _, _, _)
@@ -169,13 +176,13 @@ TrioRatioOver(ped, st, t, S) ==       \* prod_{c in S} Trio_c(t) / Trio_c(st)
 (* Gibbs weight of allele b at (i,k) relative to the weight of the current allele *)
 GibbsRatio(ped, st, i, k, b) ==
   LET sb == SetCell(st, i, k, b)
-  IN  RMul(RMul(RFrac(LW(ped, ped.reads[i], sb[i]), LW(ped, ped.reads[i], st[i])),
+  IN  RMul(RMul(RFrac(LWOf(ped, i, sb[i]), LWOf(ped, i, st[i])),
                 RDiv(AlleleLevelOf(ped, sb, i, k), AlleleLevelOf(ped, st, i, k))),
            TrioRatioOver(ped, st, sb, Children(ped, i)))
 
 (* Markov blanket of one individual: its own trio and its children's trios    *)
 BlanketRatio(ped, st, t, i) ==
-  RMul(RFrac(LW(ped, ped.reads[i], t[i]), LW(ped, ped.reads[i], st[i])),
+  RMul(RFrac(LWOf(ped, i, t[i]), LWOf(ped, i, st[i])),
        TrioRatioOver(ped, st, t, {i} \cup Children(ped, i)))
 
 (* MH ratio for proposing allele b at (i,k)                                   *)
@@ -205,7 +212,8 @@ SwapRatio(ped, st, p, q, ip, iq) ==
 Ped == Peds[pd]
 Init == /\ pd \in 1..Len(Peds)
         /\ s = [i \in 1..Peds[pd].n |-> [k \in 1..Peds[pd].ploidy[i] |-> 0]]
-        /\ tab = [trio |-> TrioTabFor(Peds[pd]), allele |-> AlleleTabFor(Peds[pd])]
+        /\ tab = [trio |-> TrioTabFor(Peds[pd]), allele |-> AlleleTabFor(Peds[pd]), bag |-> BagTabFor(Peds[pd]),
+                  perms |-> PermsTabFor(Peds[pd]), lw |-> LWTabFor(Peds[pd])]
 
 AlleleMove(i, k, b) ==      \* Gibbs and MH reach the same states
   /\ b # s[i][k]
@@ -413,8 +421,8 @@ PedClone ==
    lam |-> NoLam(3), err |-> << <<U, U>>, << Z, <<1, 4>> >>, << U, <<1, 100>> >> >>, f |-> F3skew, haps |-> Haps3,
    reads |-> << << R(<<-1, 1, -1>>, 1) >>, <<>>, << R(<<1, -1, -1>>, 1), R(<<-1, -1, 1>>, 1) >> >>]
 
-PedsQuick == << PedFounders, PedDuo, PedTrio2x, PedTrio2xE0, PedSelfing, PedMixed2, PedHalfSibs >>
-PedsThorough == PedsQuick \o << PedTwoGen, PedTetraLam, PedSelfing4x, PedClone, PedMixed3 >>
+PedsQuick == << PedFounders, PedDuo, PedTrio2x, PedTrio2xE0, PedSelfing, PedMixed2, PedHalfSibs, PedSelfing4x, PedTwoGen >>
+PedsThorough == PedsQuick \o << PedTetraLam, PedClone, PedMixed3 >>
 PedsBalanced == << PedTrio2x, PedSelfing, PedHalfSibs >>
 PedsMixedOnly == << PedMixed2 >>
 PedsSelfOnly == << PedSelfing >>
